@@ -6,13 +6,13 @@ package main
 // refused calls leave the table list and the table contents unchanged, KV/Cluster never care.
 
 import (
-	"os"
 	"context"
 	"encoding/base64"
 	"errors"
 	"fmt"
 	"io"
 	"math/rand"
+	"os"
 	"sort"
 	"strings"
 	"time"
@@ -676,7 +676,7 @@ func (g *tokGroup) runProbes() {
 			r.Count("refusals_followed_by_dump", 1)
 			if after != base {
 				r.Violation("effect-after-refusal-"+key,
-					fmt.Sprintf("%s %s was refused (%s) but the state read through Tables/List + KV/Range changed: %s", g.flavour, p.Method.short(), o.CodeS, firstDiff(base, after)),
+					fmt.Sprintf("%s %s was refused (%s) but the state read back through the API (Tables/List ids, KV/Range contents, per-table applied index of Cluster/Status where quiescent) changed: %s", g.flavour, p.Method.short(), o.CodeS, firstDiff(base, after)),
 					g.witness(&p, &o, "state unchanged", firstDiff(base, after)))
 			}
 		} else {
